@@ -399,14 +399,46 @@ func closeOnExecAllFds() error {
 
 func maskPath(path string) error {
 	// bind mount /dev/null if it is file
-	if err := syscall.Mount("/dev/null", path, "", syscall.MS_BIND, ""); err != nil && !errors.Is(err, os.ErrNotExist) {
-		if errors.Is(err, syscall.ENOTDIR) {
-			// otherwise, mount tmpfs to mask it
-			return syscall.Mount("tmpfs", path, "tmpfs", syscall.MS_RDONLY, "")
-		}
+	err := syscall.Mount("/dev/null", path, "", syscall.MS_BIND, "")
+	if errors.Is(err, os.ErrNotExist) {
+		// ENOENT does not tell whether there is nothing to mask or the container
+		// has no /dev/null: never leave an existing path exposed
+		err = maskPathWithoutDevNull(path)
+	}
+	if errors.Is(err, syscall.ENOTDIR) {
+		// otherwise, mount tmpfs to mask it
+		return syscall.Mount("tmpfs", path, "tmpfs", syscall.MS_RDONLY, "")
+	}
+	if err != nil {
 		return fmt.Errorf("mask path: %w", err)
 	}
 	return nil
+}
+
+// maskPathWithoutDevNull masks a file with an empty read-only file of the (still
+// writable) root tmpfs. It returns nil if path does not exist and ENOTDIR if it
+// is a directory
+func maskPathWithoutDevNull(path string) error {
+	fi, err := os.Stat(path)
+	if errors.Is(err, os.ErrNotExist) {
+		return nil
+	}
+	if err != nil {
+		return err
+	}
+	if fi.IsDir() {
+		return syscall.ENOTDIR
+	}
+	f, err := os.CreateTemp("/", ".mask")
+	if err != nil {
+		return err
+	}
+	f.Close()
+	defer os.Remove(f.Name())
+	if err := syscall.Mount(f.Name(), path, "", syscall.MS_BIND, ""); err != nil {
+		return err
+	}
+	return syscall.Mount("", path, "", syscall.MS_BIND|syscall.MS_REMOUNT|syscall.MS_RDONLY, "")
 }
 
 func ignoreSignals() {
